@@ -105,6 +105,15 @@ def rules(ctx, tier):
                    "record is written, acknowledged, and skipped as 'already checkpointed' by every later open")
     if x is not None:
         out.append(x)
+    # a record's version lies in its segment's range only if every open uses the segment size the log was written with
+    from . import c19
+    x = share_rule(ctx, tier, c19, "R1", "R9",
+                   "the segment size in use is the stored one: a configured value that differs from the stored one ends the "
+                   "open before anything is touched (shared with C19-R1)",
+                   "a database written with 4 operations per segment is reopened with the default: new records land in "
+                   "segment files whose range they are not in, next to older records with higher versions")
+    if x is not None:
+        out.append(x)
     return out
 
 
@@ -144,6 +153,7 @@ def manager_views(ctx, walmgr):
 
 def record_placement(ctx, r, walmgr):
     prog = ctx.prog
+    prog.__dict__["_walmgr_adt"] = walmgr
     views, inlined_somewhere = manager_views(ctx, walmgr)
     for (b0, b) in views:
         if b0.path in inlined_somewhere:
@@ -289,6 +299,12 @@ def record_placement(ctx, r, walmgr):
                         cands.append((tt["args"][0], tt["args"][1]))      # e.g. Option<u64> == Some(target)
                     for (ca, cb_) in cands:
                         sides = [ssl.leaves_up(ca, depth=4), ssl.leaves_up(cb_, depth=4)]
+                        local = [ssl.leaves_of_operand(ca), ssl.leaves_of_operand(cb_)]
+                        for x, y in ((0, 1), (1, 0)):
+                            # (the writer's side may be a field of this very function's manager parameter)
+                            if bool(sides[x]) and all(l[0] == "call" and loc(sb, l) in seg_locs for l in sides[x]) and \
+                                    bool(local[y]) and all(_of_writer(ctx, ssl, l) for l in local[y]):
+                                cmp_ok = True
                         for x, y in ((0, 1), (1, 0)):
                             tgt_side = bool(sides[x]) and all(l[0] == "call" and loc(sb, l) in seg_locs for l in sides[x])
                             wr_side = bool(sides[y]) and all(_of_writer(ctx, ssl, l) for l in sides[y])
@@ -312,9 +328,77 @@ def _of_writer(ctx, sl, l):
         pl = place_of(t["args"][0])
         return pl is not None and owns_bufwriter(prog, ctx.world._place_ty(body, pl))
     if l[0] == "param" and l[2]:
-        return owns_bufwriter(prog, sl.body.locals[l[1]])
+        return _field_owns_bufwriter(prog, sl.body.locals[l[1]], l[2])
     if l[0] == "xparam" and l[2]:
-        return owns_bufwriter(prog, prog.bodies[l[1][0]].locals[l[1][1]])
+        return _field_owns_bufwriter(prog, prog.bodies[l[1][0]].locals[l[1][1]], l[2])
+    return False
+
+
+def _field_owns_bufwriter(prog, ty, path):
+    """The value is read out of a buffered writer: the root is one, or the first field on the way (of the manager, say)
+    holds one."""
+    from .c14 import owns_bufwriter
+    d, _ = prog.adt_of(ty)
+    a = prog.adts.get(d)
+    if a is not None and a["kind"] == "Struct" and path and d == prog.__dict__.get("_walmgr_adt"):
+        for f in a["variants"][0]["fields"]:
+            if f["name"] == path[0]:
+                return owns_bufwriter(prog, f["ty"])
+    return owns_bufwriter(prog, ty)
+
+
+def _pipeline_root(ctx, b):
+    """From the body of an unlink up to the function that builds what is unlinked: through the closure it sits in (to
+    the function that writes the closure) and through private helpers with one caller."""
+    from ..prov import _closure_sites
+    prog = ctx.prog
+    cur = b
+    for _ in range(5):
+        if cur.is_closure:
+            cs = _closure_sites(prog, cur.path)
+            if len(cs) != 1:
+                break
+            cur = cs[0][0]
+            continue
+        if cur.reachable:
+            break
+        callers = [cs for (cs, how) in prog.callers_index().get(cur.path, []) if how in ("direct", "param")]
+        if len(callers) != 1 or cur.argc < 1:
+            break
+        # stop at the function that is handed the bound (a plain integer parameter) rather than the segments
+        if any(prog.ty_str(cur.locals[i]) == "u64" for i in range(1, cur.argc + 1)) and cur is not b:
+            break
+        cur = callers[0].body
+    return cur
+
+
+def _pipeline_guard(ctx, V, fs, root):
+    """The unlink occurrence `fs` of view V lies in a loop over an iterator that went through
+    `.filter(|seg| seg.id < bound)` with `bound` a parameter of the view's function."""
+    from . import c04
+    sl = Slicer(ctx.world, V)
+    nexts = [s for s in V.calls() if (s.path or "").endswith("Iterator::next") and V.dominates(s.bb, fs.bb)
+             and s.term["args"]]
+    for h in nexts:
+        filters, _start = c04._filter_chain(ctx, V, sl, h.term["args"][0])
+        for fc in filters:
+            fsl = Slicer(ctx.world, fc)
+            rl = fsl.leaves_of_place({"l": 0, "p": []})
+            for bb2 in fc.normal_blocks():
+                for st in fc.stmts(bb2):
+                    if not (st["k"] == "assign" and st["rv"]["k"] == "binop" and st["rv"]["op"] in ("Lt", "Gt")):
+                        continue
+                    a_, b__ = st["rv"]["a"], st["rv"]["b"]
+                    if st["rv"]["op"] == "Gt":
+                        a_, b__ = b__, a_
+                    la_ = fsl.leaves_of_operand(a_)
+                    item_field = bool(la_) and all(l[0] == "param" and l[1] >= 2 and l[2] for l in la_)
+                    if not (item_field and any(l[0] == "binop" and l[2] == bb2 for l in rl)):
+                        continue
+                    for depth in (1, 2, 3):
+                        lb_ = fsl.leaves_up(b__, depth=depth)
+                        if lb_ and all(l[0] == "xparam" and not l[2] and l[1][0] == root.path for l in lb_):
+                            return True
     return False
 
 
@@ -376,6 +460,16 @@ def prune_bound(ctx, r, walmgr):
                     (op == "Le" and any(l[0] == "param" for l in lx) and any(l[-1] and l[-1][-1] in idn for l in ly))
             if ge_ok and t_false is not None and cfgutil.edge_dominates(b, (sw, t_false), e.site.bb):
                 ok = True
+        if not ok:
+            # the unlink sits in a helper / closure that is fed the segments to remove: judged in the view of the function
+            # that builds the pipeline (`discover()?.into_iter().filter(|s| s.id < bound)` -> loop / try_fold -> unlink)
+            root = _pipeline_root(ctx, b)
+            if root is not None and root.path != b.path:
+                V = ctx.flat(root)
+                occ = [fs for fs in ctx.flat_sites_of(V, e.site) if fs.kind == "call" and not V.blocks[fs.bb].get("cleanup")]
+                if occ and all(_pipeline_guard(ctx, V, fs, root) for fs in occ):
+                    ok = True
+                    owner = root
         r.check(ok, "unlink-below-bound", owner,
                 "a segment is unlinked at %s only if its id is strictly below the bound parameter" % site_where(e.site),
                 "the unlink at %s is not guarded by `segment id < bound`" % site_where(e.site), site_where(e.site))
